@@ -92,6 +92,7 @@ class Universe:
             "MC_SpecKey == %s" % q(self.k), "===="]
         consts = {c: "<- MC_" + c for c in ["JobSeq", "SP", "Render", "SepVals", "SepKeys", "KeyOrder", "IdAtom", "PathSpecs", "Orders", "SpecKey"]}
         consts["MaxSubsets"] = str(self.max_subsets)
+        consts["MaxInside"] = str(getattr(self, "max_inside", 2))
         for k, v in fixed.items():
             consts[k] = "TRUE" if v else "FALSE"
         return "\n".join(lines) + "\n", consts
@@ -115,6 +116,10 @@ class Universe:
         if len(dirs) != len(v["dirs"]):
             raise RuntimeError("universe %s: two spec directories render to the same text" % self.name)
         return links, dirs
+
+    def inside_of(self, raw):
+        """spec variable `inside` (set of (job, path)) -> {(job token, relative path text)}"""
+        return frozenset((j, self.path_text(p)) for j, p in raw)
 
     def path_arg(self, ps):
         k = self.speckey
@@ -162,7 +167,8 @@ class Graph:
                         cache[lt] = tlaparse.parse_value(lt)
                     last = cache[lt]
                     if last["op"] == "idle":
-                        self.nodes[m.group(1)] = {"ws": tlaparse.parse_value(parts["ws"]), "view": tlaparse.parse_value(parts["view"])}
+                        self.nodes[m.group(1)] = {"ws": tlaparse.parse_value(parts["ws"]), "view": tlaparse.parse_value(parts["view"]),
+                                                  "inside": frozenset((x["j"], x["p"]) for x in tlaparse.parse_value(parts["inside"]))}
                         if "filled" in m.group(3) and self.init is None:
                             self.init = m.group(1)
                     else:
@@ -320,6 +326,24 @@ class Sandbox:
 
     def view(self, prefix=None):
         return observe_view(prefix or self.prefix, self.project.workspace, self.uni.tok_of_id)
+
+    def inside(self):
+        """raw snapshot of the job directories: everything below workspace/<id>/ except the state point file, as
+        {(job token, relative path)} - a view operation must never create anything there (links are not followed)"""
+        out = set()
+        wsdir = self.project.workspace
+        if not os.path.isdir(wsdir):
+            return frozenset()
+        for n in os.listdir(wsdir):
+            d = os.path.join(wsdir, n)
+            if os.path.islink(d) or not os.path.isdir(d):
+                continue
+            for r, ds, fs in os.walk(d):
+                for x in ds + fs:
+                    rel = os.path.relpath(os.path.join(r, x), d)
+                    if rel != "signac_statepoint.json":
+                        out.add((self.uni.tok_of_id.get(n, "STRAY:" + n), rel))
+        return frozenset(out)
 
     def add(self, j):
         job = self.project.open_job(json.loads(json.dumps(self.uni.sp_of[j])))
